@@ -382,13 +382,54 @@ class C13Monitor(Monitor):
 
 # =================================================================================================
 class C12Monitor(Monitor):
-    """Critical radius is where growth changes sign."""
+    """Critical radius is where growth changes sign; in binary models the interfacial composition tabulated for a size class
+    is the backend's answer for the Gibbs-Thomson energy of THAT phase at that radius."""
     DELTA = 1e-2
+    TABLE_EVERY = 20
+
+    def on_build(self, run, model):
+        self._ref_therm = None
+
+    def _table_values(self, run, model, c):
+        # isothermal runs only (the table is then exact for the current temperature); three boundaries per phase: the first
+        # stable one, the middle, the LAST (size classes appended by a grid extension are at the end)
+        R = run.R
+        if run.cfg['schedule']['kind'] != 'iso' or getattr(run, 'fault_active', False):
+            return
+        T = float(model.pData.temperature[c['n']])
+        for p in range(len(model.phases)):
+            pp = model.precipitateParameters[p]
+            b = np.asarray(model.PBM[p].PSDbounds, dtype=float)
+            xa = np.asarray(model.PSDXalpha[p], dtype=float)
+            if xa.ndim != 2 or xa.shape[0] != len(b):
+                R.observe('c12_table_grid_mismatch')
+                continue
+            first = int(model.RdrivingForceIndex[p]) + 1
+            if first >= len(b) - 1:
+                continue
+            idx = sorted(set([first, (first + len(b) - 1) // 2, len(b) - 1]))
+            g = np.array([float(np.squeeze(pp.computeGibbsThomsonContribution(np.array([b[i]])))) for i in idx])
+            if getattr(self, '_ref_therm', None) is None:
+                # an independent backend object (the run's own object is not queried, so the run is not perturbed)
+                self._ref_therm = precip.make_therm(run.cfg['system'], run.cfg['phases'])
+            ref, _ = self._ref_therm.getInterfacialComposition(T, np.array(g, copy=True), precPhase=pp.phase)
+            ref = np.atleast_1d(np.asarray(ref, dtype=float))
+            got = xa[idx, 0]
+            ok = bool(np.all((ref != -1) == (got != -1)) and np.all(np.abs(got - ref) <= 1e-5 * np.abs(ref) + 1e-12))
+            R.worst('c12_table_vs_backend_rel', float(np.max(np.abs(got - ref) / np.maximum(np.abs(ref), 1e-300))))
+            R.check('c12.table_value', ok, _mech(run, model, p, phase_index=min(p, 1), appended_classes_seen=bool(run.R.observed.get('c12_grid_extended', 0) > 0)),
+                    step=c['step'], radii=b[idx], table=got, backend=ref, g=g)
 
     def on_step(self, run, model, c):
         R = run.R
         pd = model.pData
         n = c['n']
+        if len(model.elements) == 1:
+            if any(e['op'] == 'addSizeClasses' for evs in c.get('grid_events', []) for e in evs):
+                R.observe('c12_grid_extended')
+                self._table_values(run, model, c)
+            elif c['step'] % self.TABLE_EVERY == 1:
+                self._table_values(run, model, c)
         for p in range(len(model.phases)):
             pp = model.precipitateParameters[p]
             dg = pd.drivingForce[n, p]
